@@ -155,6 +155,7 @@ def worker_batch(args):
                 out["probes"][k] = out["probes"].get(k, 0) + v
             for k, v in getattr(res, "notes", {}).items():
                 out["notes"][k] = out["notes"].get(k, 0) + v
+            out["contexts"] = sorted(set(out["contexts"]) | res.sim.contexts)
             if nontrivial(res):
                 out["nontrivial_keys"].append(trace_key(res))
             if len(out["samples"]) < 1:
@@ -452,6 +453,7 @@ def run_check(pid, tier="quick", seed=0, workers=None, budget=None, batches=None
         "violations": [],
         "known_hits": {},
         "batches_done": 0,
+        "contexts": set(),
     }
     seeds = [seed * 1_000_003 + i for i in range(cfg["batches"])]
     faulthandler.enable()
@@ -478,6 +480,8 @@ def run_check(pid, tier="quick", seed=0, workers=None, budget=None, batches=None
         while pending:
             done, pending = cf.wait(pending, timeout=5.0, return_when=cf.FIRST_COMPLETED)
             for fut in done:
+                if fut.cancelled():
+                    continue  # a batch that had not started when the wall-clock budget ran out: not run, not an error
                 try:
                     out = fut.result()
                 except Exception as e:  # worker died
@@ -488,6 +492,7 @@ def run_check(pid, tier="quick", seed=0, workers=None, budget=None, batches=None
                 agg["keys"].update(out["nontrivial_keys"])
                 agg["vtime"] += out["vtime"]
                 agg["steps"] += out["steps"]
+                agg["contexts"].update(out.get("contexts", ()))
                 for k in ("faults", "probes", "notes"):
                     for a, b in out[k].items():
                         agg[k][a] = agg[k].get(a, 0) + b
@@ -602,6 +607,9 @@ def write_evidence(mod, pid, tier, seed, agg, wall, wall_search, violations, wor
         "loop_handles_total": agg["steps"],
         "faults_fired": dict(sorted(agg["faults"].items())),
         "probes": dict(sorted(agg["probes"].items())),
+        "injection_contexts": len(agg.get("contexts", ())),
+        "injection_contexts_rule": "distinct (request, engine state, command suspended in an await, inside an event bundle, resumable, open runs, plan exhausted) tuples in which an external request landed",
+        "injection_context_samples": sorted(agg.get("contexts", ()))[:: max(1, len(agg.get("contexts", ())) // 12)][:12],
         "oracle_notes": dict(sorted(agg["notes"].items())),
         "components_real": getattr(mod, "COMPONENTS_REAL", COMPONENTS_REAL),
         "components_stub": getattr(mod, "COMPONENTS_STUB", COMPONENTS_STUB),
